@@ -1248,6 +1248,30 @@ class NoPanic:
                 return b1
         return None
 
+    def live_length_sum(self, B, b, terms):
+        """`terms` add up to a sum of the sizes of distinct buffers that exist in memory at the same time plus small constants
+        (`4 + a.len() + b.len() + c.len()`): such a sum is below the size of the address space.  Returns the number of buffers, or None."""
+        leaves, stack = [], [self.W.expand(x) for x in terms]
+        while stack:
+            x = stack.pop()
+            while isinstance(x, tuple) and x and x[0] == "cast" and x[1] in ("usize", "u64", "u32", "u16", "u8") and x[2] in ("usize", "u64"):
+                x = x[3]
+            if isinstance(x, tuple) and x and x[0] == "bin" and x[1].replace("WithOverflow", "") == "Add":
+                stack += [x[2], x[3]]
+            elif isinstance(x, tuple) and x and x[0] == "field" and x[2] == "0" and isinstance(x[1], tuple) and x[1][0] == "bin" and x[1][1].startswith("Add"):
+                stack += [x[1][2], x[1][3]]
+            elif isinstance(x, tuple) and x and x[0] == "int" and 0 <= x[1] <= 2 ** 32:
+                continue
+            elif isinstance(x, tuple) and x and x[0] == "len":
+                leaves.append(x[1])
+            elif B.upper(x, b) <= 2 ** 32 and B.lower(x, b) >= 0:
+                continue
+            else:
+                return None
+        if leaves and len(set(leaves)) == len(leaves) and len(leaves) <= 8:
+            return len(leaves)
+        return None
+
     def assert_site(self, fn, B, b, t):
         ev = B.ev
         P = self.P
@@ -1291,6 +1315,10 @@ class NoPanic:
                 ua, uc = B.upper(a, b), B.upper(c, b)
                 if ua + uc <= rng[1] and B.lower(a, b) + B.lower(c, b) >= rng[0]:
                     return self.rec(fn, b, kind, desc, "proved", "%s + %s <= %s" % (ua, uc, rng[1]))
+                if oty in ("usize", "u64"):
+                    nl_ = self.live_length_sum(B, b, [a, c])
+                    if nl_:
+                        return self.rec(fn, b, kind, desc, "typed", "sum of the lengths of %d distinct live buffers and small constants: below the size of the address space" % nl_)
             elif op == "Sub":
                 if rng[0] == 0 and B.le(c, a, 0, b):
                     return self.rec(fn, b, kind, desc, "proved", "subtrahend <= minuend by branch facts")
@@ -1419,6 +1447,9 @@ class NoPanic:
                 # through casts and crate-local accessors that return a collection's length
                 while isinstance(at0, tuple) and at0 and at0[0] == "cast":
                     at0 = at0[3]
+                if isinstance(at0, tuple) and at0 and at0[0] == "call" and callee_name(at0[1]) in ("saturating_sub", "min") and "core::" in at0[1] and at0[2]:
+                    at0 = at0[2][0]      # no larger than its first operand
+                    continue
                 if isinstance(at0, tuple) and at0 and at0[0] == "call" and at0[1] in P.fns:
                     r0 = self.W.ev(at0[1]).ret()
                     at0 = r0
@@ -1441,6 +1472,10 @@ class NoPanic:
             if isinstance(at0, tuple) and at0 and at0[0] == "len" and 0 <= la[1] <= 4096:
                 return self.rec(fn, b, "with_capacity", coarse(P, args[0]), "typed",
                                 "capacity = length of a collection that already exists in memory + %d (allocation proportional to memory already held)" % la[1])
+            nl_ = self.live_length_sum(B, b, [args[0]])
+            if nl_:
+                return self.rec(fn, b, "with_capacity", coarse(P, args[0]), "typed",
+                                "capacity = sum of the lengths of %d collections that already exist in memory + small constants (allocation proportional to memory already held)" % nl_)
             return self.rec(fn, b, "with_capacity", coarse(P, args[0]), "open", "capacity is not bounded")
         if name == "from_elem" and len(args) == 2:
             u = B.upper(args[1], b)
